@@ -133,7 +133,8 @@ func (s statusPrinter) WriteTable(out io.Writer) error {
 	_, _ = fmt.Fprintf(out, "NAMESPACE: %s\n", s.release.Namespace)
 	_, _ = fmt.Fprintf(out, "STATUS: %s\n", s.release.Info.Status.String())
 	_, _ = fmt.Fprintf(out, "REVISION: %d\n", s.release.Version)
-	if s.showMetadata {
+	hasChart := s.release.Chart != nil && s.release.Chart.Metadata != nil
+	if s.showMetadata && hasChart {
 		_, _ = fmt.Fprintf(out, "CHART: %s\n", s.release.Chart.Metadata.Name)
 		_, _ = fmt.Fprintf(out, "VERSION: %s\n", s.release.Chart.Metadata.Version)
 		_, _ = fmt.Fprintf(out, "APP_VERSION: %s\n", s.release.Chart.Metadata.AppVersion)
